@@ -210,7 +210,7 @@ PROPS = {
     'C10': dict(
         own_files=['Lemmas/LC10.v', 'Props/C10.v'],
         corr=[dict(script='corr_oppoint.py', n=400, n_thorough=10000)],
-        search='C10.py', budget_quick=25, budget_thorough=600, search_timeout=3400,
+        search='C10.py', budget_quick=50, budget_thorough=800, search_timeout=3400,
         partial=['C10_lands_on_root: that the unbracketed secant search, started at qimin and the mid flow, lands on the stable intersection right of '
                  'qimin whenever the curves meet is not proved (it needs convexity / monotonicity of graded-sand system curves and driver-limited '
                  'pump curves); searched against an independent bisection on real pipelines',
